@@ -211,6 +211,20 @@ func (b *BinaryExpression) parts() binaryParts {
 		leftMin = prec + 1
 	}
 
+	if upperOp == "AGAINST" {
+		// MySQL full-text search: the parser records MATCH (cols) AGAINST (expr [mode]) as
+		// MATCH(cols) AGAINST AGAINST(expr[, 'mode words'])
+		if fc, ok := b.Right.(*FunctionCall); ok && fc != nil && strings.EqualFold(fc.Name, "AGAINST") && len(fc.Arguments) > 0 {
+			suffix := " AGAINST (" + exprSQL(fc.Arguments[0])
+			if len(fc.Arguments) > 1 {
+				if mode, ok := fc.Arguments[1].(*LiteralValue); ok && mode != nil {
+					suffix += " " + fmt.Sprint(mode.Value)
+				}
+			}
+			return binaryParts{suffix: suffix + ")", leftMin: leftMin}
+		}
+	}
+
 	if upperOp == "IS NULL" || upperOp == "IS NOT NULL" {
 		if b.Not && upperOp == "IS NULL" {
 			// the parser records IS NOT NULL as Operator "IS NULL" with Not set
